@@ -85,6 +85,8 @@ def draw(rng, ai, i):
         fast = 0.0 if i % 2 else logu(rng, 1, 1e3)
     r1 = [logu(rng, 1e-3, 1e5), float(rng.choice([1, 24, 360, 100000])), ai.Thalf_hrs * rng.uniform(0.1, 20)][i % 3]
     rest = [0, min(r1, 1e5)]
+    if i % 5 == 4:
+        rest = [min(r1, 1e5), 0]        # the order of the rest times is the caller's: results come back in that order
     return mass, flu, cd, fast, expo, rest
 
 
@@ -158,9 +160,10 @@ def direct_case(fails, iso, j, ai, inp, rest, o, rng, full):
         fails.add("C14:2n-cancellation-negative" if br == "2n" else "C14:negative-activity:%s-branch" % br,
                   "activity of %s -> %s (%s) is %r" % (iso, ai.daughter, ai.reaction, vals), observed=vals, **where)
     # rest decay: exactly 2^(-t/T)
+    i0 = list(rest).index(0)            # the column of the activity at removal, wherever the caller put rest time 0
     for ti, v in zip(rest, vals):
-        want = D(vals[0]) * pow2(-D(ti) / D(ai.Thalf_hrs))
-        if not close(v, want, amp=vals[0]):
+        want = D(vals[i0]) * pow2(-D(ti) / D(ai.Thalf_hrs))
+        if not close(v, want, amp=vals[i0]):
             fails.add("C14:rest-decay", "activity after %r h is %r, 2^(-t/T) x activity at removal is %s"
                       % (ti, v, want), observed=v, expected=str(want), **where)
     if not full:
@@ -190,13 +193,13 @@ def direct_case(fails, iso, j, ai, inp, rest, o, rng, full):
     k1 = D(flux) * (D(ai.thermalXS) + (D(1) / D(cd) if cd >= 1 else 0) * D(ai.resonance)) * 3600 * D("1e-24")
     t2 = expo * rng.choice([1.5, 2.0, 10.0])
     o4 = one_row(iso, ai, mass, env, t2, rest)
-    if not isinstance(o4, BaseException) and o4 is not None and vals[0] >= 0:
-        lower = D(vals[0]) * (-k1 * (D(t2) - D(expo))).exp()
-        if D(float(o4[0])) < lower * (1 - D(2.0 ** -30)) - D(TINY):
+    if not isinstance(o4, BaseException) and o4 is not None and vals[i0] >= 0:
+        lower = D(vals[i0]) * (-k1 * (D(t2) - D(expo))).exp()
+        if D(float(o4[i0])) < lower * (1 - D(2.0 ** -30)) - D(TINY):
             br2 = code_branch(ai, env, t2)
             fails.add("C14:decreases-with-exposure:%s-branch" % (br if br == br2 else br + "-to-" + br2),
                       "activity %r after %g h is below activity %r after %g h x remaining target fraction"
-                      % (float(o4[0]), t2, vals[0], expo), exposure_2=t2, observed=float(o4[0]), lower_bound=str(lower), **where)
+                      % (float(o4[i0]), t2, vals[i0], expo), exposure_2=t2, observed=float(o4[i0]), lower_bound=str(lower), **where)
 
 
 def direct_elements(fails, rng, n, only=None):
@@ -337,6 +340,30 @@ def direct_halflife_columns(fails):
     return n
 
 
+def direct_parent_halflives(fails):
+    """'2n' and 'b' rows carry the half-life of the intermediate nuclide (column Thalf_parent): it is the Thalf_hrs of the primary
+    row of the same element just above"""
+    import os
+    path = os.path.join(os.path.dirname(act.__file__), "activation.dat")
+    prev = None
+    for line in open(path):
+        c = line.rstrip("\n").split("\t")
+        try:
+            int(c[2])
+        except Exception:  # noqa
+            continue
+        reac = c[12].strip('"')
+        if reac in ("b", "2n"):
+            ok = prev is not None and prev[2] == c[2] and c[19] and float(c[19]) == float(prev[17])
+            if not ok:
+                fails.add("C14:parent-halflife:%s->%s" % (c[5], c[7]),
+                          "activation.dat, row %s -> %s (%s): parent half-life %r h, but the row above (%s -> %s) gives the intermediate "
+                          "nuclide %r h" % (c[5], c[7], reac, c[19], prev[5] if prev else None, prev[7] if prev else None, prev[17] if prev else None),
+                          isotope=c[5], daughter=c[7], reaction=reac, Thalf_parent=c[19])
+        else:
+            prev = c
+
+
 def direct_table(fails):
     """third reading of activation.dat: the file's own header lines say which column is which; every
     record served by the implementation must hold the numbers of the columns so labelled"""
@@ -434,6 +461,7 @@ def main(argv):
     direct_samples(fails, random.Random(seed + 29), 3 if npts <= 10 else 12)
     direct_table(fails)
     direct_halflife_columns(fails)
+    direct_parent_halflives(fails)
     keys = ["%d|%d|%s|%s|%s" % (iso.number, iso.isotope, ai.daughter, ai.reaction, "y" if ai.fast else "n") for iso, j, ai in rows]
     json.dump(dict(cases=cases, meta=meta, direct_fails=fails, nrows=len(rows), row_keys=keys), sys.stdout)
 
